@@ -104,4 +104,18 @@ var propTable = map[string]*propSpec{
 		NotDecided: "that the comparisons compare the right operands in the right direction: the iteration sequence, clipping of float limits and the iteration count are functions of the operand values.",
 		Assumptions: []string{"the numeric-for opcode block is located structurally (the block reading A, B, C and branching on F with three register reads)"},
 	},
+	"C11": {
+		ID:    "C11",
+		Rules: []string{"R-ERRFLOW", "R-KILL", "R-POOL"},
+		Explanation: "Decides structural necessary conditions of 'errors reach exactly the nearest protected call, with their value and position intact': no Lua-error-returning runtime operation has its error discarded (table-listed debug-hook triggers aside); every error return of the interpreter loop stores the program counter first (line attribution); a Go function's error is returned unchanged; the only frames that stop panics are the inventoried ones (pcall/xpcall/coroutine functions contain no recover and reach protected execution through CallContext) and none of them can swallow a termination; a continuation is not recycled on the error path (it is still needed for the traceback / message handler).",
+		NotDecided: "identity of the error value through every path, the exact message prefixes, xpcall handler semantics, and consistency of the program state after a caught error.",
+		Assumptions: []string{"the list of Lua-error-returning runtime operations (luaErrorFuncs) was compiled by reading runtime/lib.go and thread.go"},
+	},
+	"C14": {
+		ID:    "C14",
+		Rules: []string{"R-CONFIGS", "R-POOL", "R-FINALIZE", "R-RELEASE"},
+		Explanation: "Decides structural necessary conditions of 'performance build options never change behaviour': every build configuration type-checks (same API for the same callers); the noquotas manager's metering methods are pure no-ops and its push/pop handle non-quota state like the default one; pooled objects are released only by their owners, never from a deferred function, only on the no-error path, and not used afterwards (what distinguishes the pooled from the unpooled builds); the two finaliser-pool implementations agree that every mark re-stamps the mark order; constructors and destructors of continuations mirror each other (R-RELEASE pairs), under every configuration in the thorough tier.",
+		NotDecided: "equality of behaviour across configurations over all programs; that a recycled register set is indistinguishable from a fresh one (zeroing is checked only as 'released objects are not used again').",
+		Assumptions: []string{"the noscalar tag is not a configuration: at the pinned commit runtime/value_noscalar.go does not compile, and the property does not list it"},
+	},
 }
